@@ -239,7 +239,32 @@ def py_md5_crypt(pwd: bytes, salt: bytes, magic: bytes):
 
 def search(ctx, broken, seeds):
     """the four crypt formats first, then every other format against its independent third implementations"""
-    return _search_shacrypt(ctx, broken, seeds) or search_formats(ctx)
+    return _search_shacrypt(ctx, broken, seeds) or search_formats(ctx) or _search_spec_lines(ctx, seeds)
+
+
+def _search_spec_lines(ctx, seeds):
+    """formats without a third implementation on this host (MD4 family, msdcc, mysql323, ...): an input on which passlib and the Lean
+    specification of the published algorithm disagree is the failing input -- the specification reproduces the published vectors in
+    the same run (suite format-spec-reproduces-published-vectors) and agreed with the unchanged code on this grid.
+    Re-run on the real code and through the specification before it is reported."""
+    from .C02_formats import builtin_backends, gen_cases, run_case
+
+    fmts = []
+    for m in seeds or []:
+        ln = m.get("input") if isinstance(m, dict) else m
+        if isinstance(ln, str) and ln.startswith("sfmt "):
+            f = ln.split(" ")[1]
+            if f not in fmts:
+                fmts.append(f)
+    for f in fmts[:6]:
+        with builtin_backends():
+            cases = [(c, run_case(c)) for c in gen_cases(ctx, only={f})]
+        cases = [(c, a) for c, (a, e) in cases if e is None or c.reject is None or not c.reject(e)]
+        outs = ctx.model([c.line for c, _a in cases])
+        for (c, a), mo in zip(cases, outs):
+            if mo != "unmodelled" and a != mo:
+                return {"input": dict(c.inp, op="spec-line", line=c.line), "observed": a, "expected": mo + "  (Lean specification of the published algorithm)"}
+    return None
 
 
 def _search_shacrypt(ctx, broken, seeds):
@@ -292,5 +317,8 @@ def replay(ctx, inp):
         return {"fails": got != want, "observed": got, "expected": want}
     if inp.get("op") == "formats":
         return replay_formats(ctx, inp)
+    if inp.get("op") == "spec-line":
+        r = _search_spec_lines(ctx, [{"suite": "format-checksums", "input": inp["line"]}])
+        return {"fails": r is not None, "observed": r or "the format's grid agrees with the specification"}
     r = _search_shacrypt(ctx, [], [])
     return {"fails": r is not None, "observed": r}
